@@ -53,6 +53,7 @@ func CheckC09(tier string, seed uint64, rep *core.Reporter) (*core.Evidence, err
 		fmt.Sscan(v, &n)
 	}
 	total := &Result{Stats: map[string]int64{}}
+	detHash := ""
 	rejected := 0
 	reasons := map[string]int{}
 	families := map[string]int{}
@@ -65,6 +66,9 @@ func CheckC09(tier string, seed uint64, rep *core.Reporter) (*core.Evidence, err
 			return nil, err
 		}
 		res, err := w.RunShards(w.Runsim, "c09", bseed, runs, 14, nil, nil, 40*time.Minute)
+		if err == nil && b == 0 {
+			detHash, err = w.DeterminismProbe(w.Runsim, "c09", bseed, 200, nil)
+		}
 		rejected += w.Rejected
 		for k, v := range w.Reasons {
 			reasons[k] += v
@@ -127,6 +131,8 @@ func CheckC09(tier string, seed uint64, rep *core.Reporter) (*core.Evidence, err
 			"components_simulated":    []string{"token stream at _Lexer.ReadToken (stub lexer = fault injector)", "byte stream into simplelexer (configuration b)", "liveness budget in P4 ticks"},
 			"components_stubbed":      []string{"the lexer in configuration a (stub implementing _Lexer)"},
 			"reference_models":        []string{"Earley recogniser over the grammar expanded from the spec model (@error as terminal ERROR)", "the same grammar without @error productions"},
+			"determinism_probe":      "same seed re-run with 14 shards/GOMAXPROCS=4 and 5 shards/GOMAXPROCS=1: all counters identical, hash " + detHash,
+			"stats_hash":             total.StatsHash(),
 			"known_findings_hit":      rep.KnownHits,
 		},
 		Assumptions: []string{
